@@ -55,12 +55,32 @@ def cUniqueDetails (p : Program) (_ff0 : Bool) (t : Trace) : Bool :=
     (uniqueAdds p t).all fun (n, c) =>
       (D.filter fun x => x.2 == c).length == 1 && D.any fun x => x.2 == c && isRenaming n x.1
 
-/-- exceptions whose traceback must be among the details -/
-def expectedTbs (p : Program) (ff0 : Bool) (t : Trace) : List Exc :=
-  ((raisedAll p ff0 t).filter fun e => !noTraceback e.cls) ++
+/-- exceptions denoting a failure or an error by the documented mapping (anything that is not a skip, an
+expected failure or an unexpected success): their traceback MUST be among the details -/
+def needsTb (c : Cls) : Bool := !(isSub c .skip || isSub c .xfail || isSub c .uxs)
+
+/-- other exceptions whose traceback MAY be present: every exception handed to the runner, the assertion
+behind an expected failure, the object caught by the expectedFailure decorator -/
+def relatedTbs (p : Program) (ff0 : Bool) (t : Trace) : List Exc :=
+  raisedAll p ff0 t ++
   ((executed p t).flatMap fun st =>
     (match st.term with
-     | .expectFailure _ (some e) _ => [e]      -- the assertion behind an expected failure
+     | .expectFailure _ (some e) _ => [e]
+     | _ => []) ++
+    (if p.xfailDeco && st.id == p.body.id then
+       (match termObj st.term with
+        | some obj => if isSub obj.cls .exc then [obj] else []
+        | none => [])
+     else []))
+
+/-- tracebacks that must be present: of every raised failure / error (constituents of MultipleExceptions
+counted separately, forced failure included), of the assertion behind an expected failure, and of the
+failure caught by the expectedFailure decorator -/
+def requiredTbs (p : Program) (ff0 : Bool) (t : Trace) : List Exc :=
+  ((raisedAll p ff0 t).filter fun e => needsTb e.cls) ++
+  ((executed p t).flatMap fun st =>
+    (match st.term with
+     | .expectFailure _ (some e) _ => [e]
      | _ => []) ++
     (if p.xfailDeco && st.id == p.body.id then
        (match termObj st.term with
@@ -70,14 +90,15 @@ def expectedTbs (p : Program) (ff0 : Bool) (t : Trace) : List Exc :=
 
 def tbsIn (D : Details) : List Exc := D.filterMap fun | (_, .tb e) => some e | _ => none
 
-def isPerm : List Exc → List Exc → Bool
-  | [], ys => ys.isEmpty
-  | x :: xs, ys => ys.contains x && isPerm xs (ys.erase x)
+/-- `xs` is a sub-multiset of `ys` -/
+def subMulti : List Exc → List Exc → Bool
+  | [], _ => true
+  | x :: xs, ys => ys.contains x && subMulti xs (ys.erase x)
 
-/-- one traceback per exception raised by user code (constituents of MultipleExceptions counted
-separately, forced failure and the assertion behind an expected failure included) -/
+/-- one traceback per failure / error raised by user code, none invented, none twice -/
 def cTracebacks (p : Program) (ff0 : Bool) (t : Trace) : Bool :=
-  !showsDetails p.flavour || p.skipDeco.isSome || isPerm (expectedTbs p ff0 t) (tbsIn (detailsOf t))
+  !showsDetails p.flavour || p.skipDeco.isSome ||
+    (subMulti (requiredTbs p ff0 t) (tbsIn (detailsOf t)) && subMulti (tbsIn (detailsOf t)) (relatedTbs p ff0 t))
 
 def cNamesDistinct (_p : Program) (_ff0 : Bool) (t : Trace) : Bool :=
   idsNodupN ((detailsOf t).map (·.1))
